@@ -2,8 +2,9 @@
 # tools/revert_matrix.sh   dev-only: every "fix:" commit of /repo reverted on top of HEAD (in lab A) must be
 # reported by the check(s) of the property/properties KNOWN_FINDINGS.txt lists for it.
 set -u
-/verif/tools/lab.sh A >/dev/null
-R=/tmp/lab/A/repo
+LAB=${1:-A}
+/verif/tools/lab.sh $LAB >/dev/null
+R=/tmp/lab/$LAB/repo
 mkdir -p /tmp/reverts
 for h in $(git -C /repo log --format=%h --grep='^fix:' --reverse); do
   props=$(grep "^fixed: property=" /verif/KNOWN_FINDINGS.txt | grep " $h " | sed 's/fixed: property=\(C[0-9]*\).*/\1/' | sort -u | tr '\n' ' ')
@@ -12,6 +13,6 @@ for h in $(git -C /repo log --format=%h --grep='^fix:' --reverse); do
   git -C $R diff HEAD > /tmp/reverts/$h.diff
   git -C $R revert --abort 2>/dev/null; git -C $R reset -q --hard
   if ! (cd $R && GOFLAGS=-mod=mod GOPROXY=off go build ./... 2>/dev/null); then :; fi
-  res=$(REPO_DIR=$R VERIF_DIR=/tmp/lab/A/verif /verif/tools/trymutant.sh /tmp/reverts/$h.diff quick $props 2>&1 | grep -E "DETECTED|silent|broken|BUILD-FAILED" | cut -c1-110 | tr '\n' ';')
+  res=$(REPO_DIR=$R VERIF_DIR=/tmp/lab/$LAB/verif /verif/tools/trymutant.sh /tmp/reverts/$h.diff quick $props 2>&1 | grep -E "DETECTED|silent|broken|BUILD-FAILED" | cut -c1-110 | tr '\n' ';')
   echo "$h [$props] $res"
 done
